@@ -63,8 +63,11 @@ func (k *KVStore) Import(data []byte, f func(uint64, storage.Entry) error) error
 		return err
 	}
 
+	// Stop at the first entry the callback rejects and report that error: the sender
+	// drops its table only if every entry has been taken over.
 	tb.Range(func(hkey uint64, e storage.Entry) bool {
-		return f(hkey, e) == nil
+		err = f(hkey, e)
+		return err == nil
 	})
 	return err
 }
